@@ -12,30 +12,36 @@ META = {
     ],
     "bounds": {
         "shape": "ONE handler call from an ARBITRARY node state in which the set satisfies its invariant and set and store agree (so agreement after every prefix of every request sequence follows by induction, within the domain)",
-        "domain": "KEYS=2 NODES=2, N=2 sources; handlers: on_set, on_del, on_purge_tombstones",
-        "timestamps": "fully symbolic valid stamps (any origin < NODES), arbitrary source",
-        "faults": "every storage call may fail; remove_tombstones may fail after an arbitrary prefix and reports exactly the ids removed",
+        "domain": "KEYS=2 NODES=2, N=2 sources; handlers: on_set, on_del, on_purge_tombstones, on_multi_set / on_multi_del with ONE document (quick + thorough) and with TWO documents of distinct ids (thorough only)",
+        "timestamps": "fully symbolic valid stamps (any origin < NODES), arbitrary source (0 = consistency, 1 = read repair)",
+        "faults": "every storage call may fail; bulk calls and remove_tombstones may fail after an arbitrary prefix (or after everything was written) and report exactly the ids written, in ARBITRARY order",
+        "unwind": "Vec capacity + 2 for the single-request harnesses; max(DOM, VCAP) + 1 = 3 for the bulk harnesses; unwinding assertions on",
     },
     "models": [
-        "vcoll container models inside the regenerated datacake-crdt (see C04); std HashSet in actor.rs -> RefSet model (import rewrite, 1 line); Vec<Key> inside BulkMutationError (storage.rs) -> fixed-capacity IdVec (3 rewrite hits); the two `valid_entries` Vecs of the bulk handlers -> vcoll Vec (2 rewrite hits)",
+        "vcoll container models inside the regenerated datacake-crdt (see C04); std HashSet in actor.rs -> RefSet model (import rewrite, 1 line); Vec<Key> inside BulkMutationError (storage.rs) -> fixed-capacity IdVec (3 rewrite hits); the two `valid_entries` Vecs of the bulk handlers -> vcoll Vec (2 rewrite hits); DocVec<T> = SmallVec<[T; 4]> (core.rs) -> vcoll Vec (alias rewrite, 1 line)",
+        "two instances of the mount: Vec capacity 2 (single requests, purge, two-document bulk) and Vec capacity 1 (bulk1/: one-document bulk requests)",
         "shim crates at the crate boundary: datacake-node (Clock: arbitrary strictly increasing stamps with the node id), datacake-rpc (Channel: unit struct), puppet + puppet-derive (pass-through #[puppet_actor]/#[puppet])",
-        "ModelStore: harness Storage impl over one row per key with a symbolic failure schedule; all futures immediately ready; polled once with a no-op waker",
+        "ModelStore: harness Storage impl over one row per key with a symbolic failure schedule; it does its work eagerly and returns already-completed futures (the handlers await every storage call immediately); polled once with a no-op waker",
     ],
     "assumptions": [
         "the Storage implementation is honest: a failed single call wrote nothing, a failed bulk call reports exactly what it wrote (the trait's contract)",
         "set invariant over-approximates reachable states",
+        "a bulk request does not carry the same document id twice (two-document harnesses)",
+        "the payload of a document has a second, leaked owner in the harness (so no drop path frees it): the handlers never look at the payload",
     ],
-    "outside": ["the bulk handlers on_multi_set / on_multi_del (tried: 31 M variables for a one-document bulk delete with a no-op store, no result in 20 min, out of memory at 50 GB) - so 'a partially failed bulk makes visible exactly what storage reports' is NOT decided",
+    "outside": ["bulk requests with more than two documents; the two-document forms are thorough-tier only and are reported inconclusive when they exceed the cap",
                 "SQLite/LMDB honouring the contract (C17)", "more than 2 keys / 2 origins", "the mailbox/tokio scheduling around the handlers"],
 }
 
 MANIFEST = {
-    "text": "Bounded model checking (SAT) of the real KeyspaceActor handlers on_set, on_del and on_purge_tombstones mounted verbatim with "
-            "the real core/storage/messages modules and the regenerated datacake-crdt: one handler call from an arbitrary agreeing "
-            "(set, store) node state with fully symbolic timestamps, sources and storage failure points; afterwards set and store agree "
-            "again, a failed single operation changed neither side, a partially failed purge keeps exactly the tombstones whose removal "
-            "was not reported, and the set invariant holds - an inductive step covering request sequences of any length within 2 keys x 2 origins. The bulk put/delete handlers did not finish and are outside the claim.",
-    "note": "Trusts Kani/CBMC, the vcoll/RefSet container models, the shim crates standing in for Clock/Channel/puppet, the ModelStore honouring the Storage contract.",
+    "text": "Bounded model checking (SAT) of the real KeyspaceActor handlers on_set, on_del, on_purge_tombstones and the bulk handlers on_multi_set / "
+            "on_multi_del (requests carrying one document; two documents in the thorough tier) mounted verbatim with the real core/storage/messages "
+            "modules and the regenerated datacake-crdt: one handler call from an arbitrary agreeing (set, store) node state with fully symbolic "
+            "timestamps, sources and storage failure points (bulk calls fail after any prefix and report what they wrote in any order); afterwards "
+            "set and store agree again, a failed single operation changed neither side, a document the store did not report as written is applied to "
+            "neither side, a partially failed purge keeps exactly the tombstones whose removal was not reported, and the set invariant holds - an "
+            "inductive step covering request sequences of any length within 2 keys x 2 origins.",
+    "note": "Trusts Kani/CBMC, the vcoll/RefSet/IdVec container models, the shim crates standing in for Clock/Channel/puppet, the ModelStore honouring the Storage contract.",
     "technique": "Kani/CBMC bounded model checking of the compiled source; inductive handler step from symbolic agreeing state with symbolic fault schedule; native replay",
 }
 
@@ -43,8 +49,13 @@ MANIFEST = {
 def build(ws, tier, seed, mode):
     keys, nodes = CFG[tier]
     d, mounted, cfg = common.build_actor_mount(ws, mode, ["harness_c02.rs"], keys, nodes)
+    # a second instance whose Vec model holds ONE element: bulk requests carrying one document (every consuming loop of
+    # the bulk handlers is then unrolled once; with capacity 2 the same harness needs 17.6 M variables and 25+ minutes)
+    d1, mounted1, cfg1 = common.build_actor_mount(ws, mode, ["harness_c02.rs"], keys, nodes, vcap=1, subdir="bulk1")
     feats = ("verif_replay",) if mode == "replay" else ()
-    return {"crates": {"ecv": {"dir": d, "features": feats}}, "mounted": mounted, "cfg": cfg}
+    cfg = dict(cfg)
+    cfg["VCAP_bulk1"] = cfg1["VCAP"]
+    return {"crates": {"ecv": {"dir": d, "features": feats}, "ecv1": {"dir": d1, "features": feats}}, "mounted": mounted, "cfg": cfg}
 
 
 def validate(ws, build, logs_dir):
@@ -52,16 +63,22 @@ def validate(ws, build, logs_dir):
 
 
 def harnesses(tier, seed):
-    def h(name, what, t=1800, mem=24, covers=1):
-        return {"name": name, "crate": "ecv", "timeout_s": t, "mem_gb": mem, "min_covers": covers, "what": what, "bounds": ""}
+    def h(name, what, t=800, mem=12, covers=1, crate="ecv"):
+        return {"name": name, "crate": crate, "timeout_s": t, "mem_gb": mem, "min_covers": covers, "what": what, "bounds": ""}
     hs = [
         h("c02_on_set_step", "one put request from an arbitrary agreeing state, storage may fail", covers=3),
         h("c02_on_del_step", "one delete request from an arbitrary agreeing state, storage may fail", covers=2),
-        h("c02_on_purge_step", "one purge request; removal in storage may fail part-way", covers=2),
+        h("c02_on_purge_step", "one purge request; removal in storage may fail part-way, removed ids reported in any order", covers=2),
+        h("c02_on_multi_del1_step", "one bulk delete carrying one document, any source; the store may fail before or after writing it",
+          t=800, mem=16, covers=2, crate="ecv1"),
+        h("c02_on_multi_set1_step", "one bulk put carrying one document, any source; the store may fail before or after writing it",
+          t=800, mem=16, covers=2, crate="ecv1"),
     ]
-    # The bulk handlers (c02_on_multi_set_step, c02_on_multi_del_step and their one-document forms
-    # c02_on_multi_set1_step / c02_on_multi_del1_step) are kept in encode/harness_c02.rs but are NOT registered:
-    # even with a store that does nothing, on_multi_del with ONE document yields 31 M variables / 150 M clauses
-    # and does not finish in 20 min (50 GB cap: out of memory during propositional reduction).  They are
-    # outside the claim (DESIGN.md section 3, C02).
+    if tier == "thorough":
+        hs += [
+            h("c02_on_multi_del_step", "one bulk delete carrying two documents with distinct ids; the store may fail after any prefix and "
+              "reports the ids it wrote in any order", t=5400, mem=50, covers=2),
+            h("c02_on_multi_set_step", "one bulk put carrying two documents with distinct ids; the store may fail after any prefix and "
+              "reports the ids it wrote in any order", t=5400, mem=50, covers=2),
+        ]
     return hs
